@@ -1,6 +1,7 @@
 package main
 
 import (
+	"reflect"
 	"strings"
 	"syscall"
 	"time"
@@ -29,9 +30,13 @@ func init() {
 		mnc, mcc := str(in, "mnc"), str(in, "mcc")
 		go func() {
 			defer func() { recover() }()
-			if str(in, "proc") == "deregister" {
+			switch str(in, "proc") {
+			case "deregister":
 				stgutg.DeregisterUE(ue, mnc, conn)
-			} else {
+			case "ngsetup":
+				// as main() calls it: the configured gNB id / IMSI / MNC / bit length / name
+				stgutg.ManageNGSetup(conn, string([]byte{0, 1, 2}), strings.TrimPrefix(str(in, "imsi"), "imsi-"), mnc, 24, "gnb")
+			default:
 				stgutg.RegisterUE(ue, mnc, mcc, conn)
 			}
 		}()
@@ -50,6 +55,7 @@ func init() {
 			out["decode_err"] = "not an initiating NGAP message"
 			return out
 		}
+		out["plmns"] = allPlmns(pdu)
 		var nasPdu []byte
 		switch {
 		case pdu.InitiatingMessage.Value.InitialUEMessage != nil:
@@ -80,4 +86,34 @@ func init() {
 		}
 		return out
 	}
+}
+
+// every PLMNIdentity value found anywhere in a decoded NGAP PDU (reflection walk), as hex
+func allPlmns(x interface{}) []string {
+	out := []string{}
+	var walk func(v reflect.Value)
+	walk = func(v reflect.Value) {
+		switch v.Kind() {
+		case reflect.Ptr, reflect.Interface:
+			if !v.IsNil() {
+				walk(v.Elem())
+			}
+		case reflect.Struct:
+			if v.Type() == reflect.TypeOf(ngapType.PLMNIdentity{}) {
+				out = append(out, hx(v.Field(0).Bytes()))
+				return
+			}
+			for i := 0; i < v.NumField(); i++ {
+				walk(v.Field(i))
+			}
+		case reflect.Slice:
+			if v.Type().Elem().Kind() != reflect.Uint8 {
+				for i := 0; i < v.Len(); i++ {
+					walk(v.Index(i))
+				}
+			}
+		}
+	}
+	walk(reflect.ValueOf(x))
+	return out
 }
